@@ -30,6 +30,14 @@ class Top(AV):
     pass
 
 
+class Empty(AV):
+    """An empty array literal (np.array([])): the identity of join."""
+    pass
+
+
+EMPTY = Empty()
+
+
 TOP = Top()
 
 
@@ -50,8 +58,9 @@ class Idx(AV):
 
 
 class Off(AV):
-    def __init__(self, level, win, top, role=None):
-        self.level, self.win, self.top, self.role = level, win, top, role   # role: None | 'start' | 'stop' (views offs[:-1] / offs[1:])
+    def __init__(self, level, win, top, role=None, tbase='abs'):
+        # role: None | 'start' | 'stop' (views offs[:-1] / offs[1:]); tbase: base of the indices it yields ('abs' whole buffer, 'win' re-based)
+        self.level, self.win, self.top, self.role, self.tbase = level, win, top, role, tbase
 
 
 class OffC(AV):
@@ -186,7 +195,9 @@ class FreshSlot(AV):
         self._bound = None
 
     def bind(self, v):
-        if not isinstance(v, FreshSlot):
+        if isinstance(v, FreshSlot):
+            v = v._bound
+        if v is not None:
             self._bound = join(self._bound, v)
 
     def key(self):
@@ -224,6 +235,10 @@ def join(a, b):
         return a
     if a is b or a.key() == b.key():
         return a
+    if isinstance(a, Empty):
+        return b
+    if isinstance(b, Empty):
+        return a
     if isinstance(a, FreshSlot):
         a = a._bound if a._bound is not None else None
         return join(a, b)
@@ -238,12 +253,14 @@ def join(a, b):
         return Q(a.dim, a.pos and b.pos, a.role if a.role == b.role else None, a.owner if a.owner == b.owner else None)
     if (isinstance(a, Q) and isinstance(b, Const)) or (isinstance(b, Q) and isinstance(a, Const)):
         return a if isinstance(a, Q) else b          # nan / inf sentinels joined with coordinates
-    if isinstance(a, Off) and isinstance(b, Off) and a.level == b.level and a.top == b.top:
-        return Off(a.level, a.win or b.win, a.top, a.role if a.role == b.role else None)
-    if isinstance(a, Vals) and isinstance(b, Vals) and a.L == b.L and a.base == b.base:
-        return Vals(a.L, a.base, a.placeholder or b.placeholder, a.fresh and b.fresh)
+    if isinstance(a, Off) and isinstance(b, Off) and a.level == b.level and a.top == b.top and a.tbase == b.tbase:
+        return Off(a.level, a.win or b.win, a.top, a.role if a.role == b.role else None, a.tbase)
+    if isinstance(a, Vals) and isinstance(b, Vals) and a.L == b.L:
+        return Vals(a.L, a.base if a.base == b.base else 'mixed', a.placeholder or b.placeholder, a.fresh and b.fresh)
     if isinstance(a, Arr) and isinstance(b, Arr):
         return Arr(join(a.el, b.el), a.level if a.level == b.level else None)
+    if isinstance(a, Rows) and isinstance(b, Rows) and len(a.layout.items) == len(b.layout.items):
+        return Rows(Tup([join(x, y) or FreshSlot() for x, y in zip(a.layout.items, b.layout.items)]), a.level if a.level is not None else b.level)
     if isinstance(a, (Boolean, Mask)) and isinstance(b, (Boolean, Mask, Const)):
         return a
     if isinstance(b, (Boolean, Mask)) and isinstance(a, Const):
@@ -725,7 +742,13 @@ class Interp:
                 r.count_level = a.level
                 return r
             if isinstance(op, ast.Add):
-                return Idx(a.level, a.base, None)
+                r = Idx(a.level, a.base if a.base != 'pos' else b.base, None)
+                origins = {a.origin, b.origin}
+                if origins == {'array.offset', 'len'}:
+                    r.origin = 'array.end'
+                    r.delta = a.delta + b.delta
+                    r.base = 'abs'
+                return r
             return TOP
         # offsets arrays: rebasing `offs - offs[0]`
         for x, y in ((a, b),):
@@ -958,14 +981,14 @@ class Interp:
                 if i.level != base.level and not isinstance(i.level, (tuple, str)):
                     self.err('level', node, f'offsets of level {base.level} indexed by an index of level {i.level}')
                     return TOP
-                r = Idx(base.level + 1, 'abs', top_par, origin=('off', base.level, i.origin, i.delta, base.role))
+                r = Idx(base.level + 1, base.tbase, top_par, origin=('off', base.level, i.origin, i.delta, base.role))
                 return r
             if isinstance(i, Const) and isinstance(i.v, int):
-                return Idx(base.level + 1, 'abs', top_par, origin=('off', base.level, 'c', i.v, base.role))
+                return Idx(base.level + 1, base.tbase, top_par, origin=('off', base.level, 'c', i.v, base.role))
             if isinstance(i, Sel):
                 if i.level != base.level and i.level is not None:
                     self.err('level', node, f'offsets of level {base.level} gathered by a level-{i.level} selection')
-                r = Off(base.level, base.win, base.top, base.role)
+                r = Off(base.level, base.win, base.top, base.role, base.tbase)
                 r.gathered = True
                 return r
             if isinstance(i, Off):
@@ -988,9 +1011,9 @@ class Interp:
                 if i.level != base.level and not isinstance(i.level, (tuple, str)):
                     self.err('level', node, f'composed offsets (level {base.level} -> {base.to}) indexed by an index of level {i.level}')
                     return TOP
-                return Idx(base.to, 'abs', 0 if base.to == base.top else None, origin=('offc', base.level, i.origin, i.delta, getattr(base, 'role', None)))
+                return Idx(base.to, 'win' if getattr(base, 'rebased', False) else 'abs', 0 if base.to == base.top else None, origin=('offc', base.level, i.origin, i.delta, getattr(base, 'role', None)))
             if isinstance(i, Const) and isinstance(i.v, int):
-                return Idx(base.to, 'abs', 0 if base.to == base.top else None, origin=('offc', base.level, 'c', i.v, getattr(base, 'role', None)))
+                return Idx(base.to, 'win' if getattr(base, 'rebased', False) else 'abs', 0 if base.to == base.top else None, origin=('offc', base.level, 'c', i.v, getattr(base, 'role', None)))
             if isinstance(i, Sel):
                 return base
             return TOP
@@ -1017,6 +1040,10 @@ class Interp:
                 return Arr(Coord('X' if i.parity == 0 else 'Y'), i.level)
             if isinstance(i, Const) and isinstance(i.v, int):
                 return Coord('X' if i.v % 2 == 0 else 'Y')
+            if isinstance(i, (Mask, Boolean)) and getattr(base, 'reshaped', False):
+                r = Vals(base.L, base.base, False, base.fresh)     # rows selected by a mask: placeholder rows dropped
+                r.reshaped = True
+                return r
             return TOP
         if isinstance(base, Arr):
             if store is not None and isinstance(base.el, FreshSlot):
@@ -1060,7 +1087,7 @@ class Interp:
             elif isinstance(lo, Const) and lo.v == 1 and hi is None and st is None:
                 role = 'stop'
             win = base.win or any(isinstance(b, Idx) for b in (lo, hi))
-            r = Off(base.level, win, base.top, role)
+            r = Off(base.level, win, base.top, role, base.tbase)
             # fencepost: a sub-array of offsets for the parts [start, stop) must be cut as offs[start : stop + 1]
             if isinstance(lo, Idx) and isinstance(hi, Idx):
                 r.cut = (lo, hi)
@@ -1175,10 +1202,14 @@ class Interp:
             lv = shp.level if isinstance(shp, Idx) else None
             if isinstance(dt, Ext) and 'bool' in dt.name:
                 return Mask(lv)
+            if short == 'full' and len(args) > 1 and isinstance(args[1], Const) and isinstance(args[1].v, bool):
+                return Mask(lv)
             return Arr(FreshSlot(), lv)
         if short in ('asarray', 'array', 'ascontiguousarray'):
             if isinstance(a0, Buf):
                 return a0
+            if isinstance(a0, Tup) and not a0.items:
+                return EMPTY
             if isinstance(a0, Tup) and a0.items and all(isinstance(x, (Idx, Const)) for x in a0.items) and any(isinstance(x, Idx) for x in a0.items):
                 # np.array([0, n]) one-element offsets built by scalar wrappers
                 idxs = [x for x in a0.items if isinstance(x, Idx)]
@@ -1195,6 +1226,14 @@ class Interp:
         if short == 'arange':
             if isinstance(a0, Idx) and len(args) == 1:
                 return Sel(a0.level)
+            if len(args) == 3 and isinstance(args[0], Const) and args[0].v == 0 and isinstance(args[1], Idx) and args[1].origin == 'len' \
+                    and isinstance(args[1].level, int) and isinstance(args[2], Const) and isinstance(args[2].v, int) and args[2].v >= 1:
+                # np.arange(0, len(values) + 1, k): boundaries of fixed-width elements of k coordinates each
+                if args[1].delta != 1:
+                    self.err('fencepost', node, f'element boundaries built as arange(0, len(values){"%+d" % args[1].delta if args[1].delta else ""}, {args[2].v}): '
+                                                f'n elements need n + 1 boundaries (use len(values) + 1)')
+                    return TOP
+                return Off(args[1].level - 1, args[1].base == 'win', args[1].level, None, args[1].base if args[1].base in ('abs', 'win') else 'abs')
             return TOP
         if short in ('any', 'all'):
             return BOOL
@@ -1236,7 +1275,7 @@ class Interp:
                 m = kwargs.get('mask')
                 if m is not None:
                     if isinstance(a0, Off):
-                        r = Off(a0.level, a0.win, a0.top, a0.role)
+                        r = Off(a0.level, a0.win, a0.top, a0.role, a0.tbase)
                     elif isinstance(a0, OffC):
                         r = OffC(a0.level, a0.to, a0.win, a0.top)
                     else:
@@ -1293,6 +1332,12 @@ class Interp:
             if isinstance(o, Vals):
                 return Vals(o.L, o.base, o.placeholder, fresh=True)
             return o
+        if name == 'reshape' and isinstance(o, Vals):
+            r = Vals(o.L, o.base, o.placeholder, o.fresh)
+            r.reshaped = True
+            return r
+        if name == 'ravel' and isinstance(o, Vals):
+            return Vals(o.L, o.base, o.placeholder, o.fresh)
         if name in ('astype', 'view', 'ravel'):
             return o
         if name == 'fill':
